@@ -4,6 +4,7 @@ import (
 	"context"
 	"errors"
 	"fmt"
+	"sort"
 
 	"go.opentelemetry.io/otel/metric"
 	"go.opentelemetry.io/otel/metric/noop"
@@ -158,10 +159,12 @@ func (r *run) runMemLimit() {
 	lastPrefix := 0
 	lastL := uint64(0)
 	steps := 0
+	var walked []uint64
 	maxSteps := 250
 	if r.o.Tier == "thorough" {
 		maxSteps = 1500
 	}
+	prefixAt := map[uint64]int{}
 	check := func(L uint64, res result) {
 		if res.prefix < lastPrefix {
 			r.violate("C14", "monotone", fmt.Sprintf("%d leading batches decoded under a limit of %d bytes but only %d under the larger limit of %d bytes", lastPrefix, lastL, res.prefix, L))
@@ -174,6 +177,8 @@ func (r *run) runMemLimit() {
 			break
 		}
 		check(L, res)
+		walked = append(walked, L)
+		prefixAt[L] = res.prefix
 		if res.prefix == len(stream) {
 			r.probe("walk_reached_full_decode")
 			break
@@ -203,6 +208,42 @@ func (r *run) runMemLimit() {
 				break
 			}
 			check(extra, res)
+			prefixAt[extra] = res.prefix
+		}
+	}
+	// The walk only visits limits of the form in-use + requested, which are
+	// multiples of Arrow's 64-byte allocation granularity. A sample of the
+	// limits in between (L-1, L+1, L+33) is tried as well; afterwards the
+	// number of leading batches decoded must be monotone in the limit over
+	// everything that was tried.
+	if len(r.out.Violations) == 0 && len(walked) > 0 {
+		stride := 1 + len(walked)/10
+		for i := len(walked) - 1; i >= 0 && len(r.out.Violations) == 0; i -= stride {
+			for _, off := range []int64{-1, 1, 33} {
+				l := int64(walked[i]) + off
+				if l < 0 {
+					continue
+				}
+				if _, done := prefixAt[uint64(l)]; done {
+					continue
+				}
+				res := replay(uint64(l))
+				if len(r.out.Violations) > 0 {
+					break
+				}
+				prefixAt[uint64(l)] = res.prefix
+				r.probe("limits_between_allocation_boundaries")
+			}
+		}
+		var ls []uint64
+		for l := range prefixAt {
+			ls = append(ls, l)
+		}
+		sort.Slice(ls, func(i, j int) bool { return ls[i] < ls[j] })
+		for i := 1; i < len(ls) && len(r.out.Violations) == 0; i++ {
+			if prefixAt[ls[i]] < prefixAt[ls[i-1]] {
+				r.violate("C14", "monotone", fmt.Sprintf("%d leading batches decoded under a limit of %d bytes but only %d under the larger limit of %d bytes", prefixAt[ls[i-1]], ls[i-1], prefixAt[ls[i]], ls[i]))
+			}
 		}
 	}
 	r.batch = steps
